@@ -7,7 +7,7 @@ from ..ref import P, L, to32, le
 
 REQUIRED = ['seed:corner', 'seed:random', 'msg:len0', 'msg:len128', 'msg:long', 'ctx:0', 'ctx:255', 'ctx:256-refused',
             'ctx:1000-refused', 'keypair:match', 'keypair:mismatch', 'keypair:mismatch-torsion', 'keypair:pkcs8', 'keypair:mismatch-undecodable', 'accept:own', 'reject:flip-key', 'reject:flip-msg',
-            'reject:flip-ctx', 'reject:flip-R', 'reject:flip-S', 'hazmat:passthrough', 'batch:own', 'batch:large', 'traits:pure', 'traits:prehash']
+            'reject:flip-ctx', 'reject:flip-R', 'reject:flip-S', 'hazmat:passthrough', 'batch:own', 'batch:large', 'traits:pure', 'traits:prehash', 'hazmat:mixed-digests']
 
 MSG_LENS = [0, 1, 63, 64, 65, 111, 112, 127, 128, 129]
 
@@ -208,6 +208,17 @@ def gen(ctx, size, long_msgs=False):
         k = le((R + Ab + msg)[:64]) % L
         S = (k * a + r) % L
         ctx.add('sig.rawsign_pt', esk.hex(), hx(msg), expect=[Ab.hex(), (R + to32(S)).hex(), 'ok'], cls='hazmat:passthrough')
+        # prehashed hazmat functions with two *different* digest types: challenge / nonce hash = pass-through, message
+        # digest = SHA-512; verification with <Sha512, Sha512> hashes the challenge differently and must refuse
+        cb = rng.choice([None, b'', vals.rb(rng, 3), vals.rb(rng, 40)])
+        dom = ref.dom2(1, cb or b'')
+        ph_ = vals.sha512(msg)
+        r2 = le((dom + prefix + ph_)[:64].ljust(64, b'\0')) % L
+        R2 = ref.ed_compress(ref.base_mul(r2))
+        k2 = le((dom + R2 + Ab + ph_)[:64].ljust(64, b'\0')) % L
+        S2 = (k2 * a + r2) % L
+        ctx.add('sig.rawph_mixed', esk.hex(), hx(msg), '~' if cb is None else hx(cb),
+                expect=[Ab.hex(), (R2 + to32(S2)).hex(), 'ok', 'err'], cls=['hazmat:passthrough', 'hazmat:mixed-digests'])
 
 
 def large_batch(ctx):
@@ -242,7 +253,7 @@ def task(prop, seed, size, cfgbins, long_msgs=False):
 
 def run(prop, tier, seed, t0):
     from .. import plan
-    cfgs = ['simd', 'serial32', 'simd-notables', 'fiat64'] if tier == 'quick' else plan.ALL_CFGS + ['simd-notables', 'simd-legacy']
+    cfgs = ['simd', 'serial32', 'simd-notables', 'fiat64', 'avx512'] if tier == 'quick' else plan.ALL_CFGS + ['simd-notables', 'simd-legacy']
     bins, notes, failed = plan.bins_for(cfgs, ('rel', 'chk') if tier == 'thorough' else ('rel',))
     if failed:
         return plan.fail_build(prop, failed)
